@@ -93,7 +93,7 @@ example : ¬ (Real.sqrt (sqDist ([] ++ (0 : ℝ) :: [0]) ([] ++ (3 : ℝ) :: [4]
 entry `d` of `k·(−q/L^q)·|Δ_d|^{q−1} sgn Δ_d` is `∂k/∂v_d`. -/
 theorem prod_grad_partial (P : Params ℝ) (_g : Guards P) (vpre vpost upre upost : List ℝ) (a t : ℝ)
     (h : vpre.length = upre.length) (hta : t ≠ a)
-    (hne : ¬ (pSum P.q (vsub (vpre ++ t :: vpost) (upre ++ a :: upost)) < P.eps)) :
+    (hne : ¬ (pNorm P.q (vsub (vpre ++ t :: vpost) (upre ++ a :: upost)) < P.eps)) :
     ∃ gd, (gradProd P (upre ++ a :: upost) (vpre ++ t :: vpost))[vpre.length]? = some gd ∧
       HasDerivAt (fun s => kProd P (upre ++ a :: upost) (vpre ++ s :: vpost)) gd t :=
   prod_coord P vpre vpost upre upost a t h hta hne
@@ -195,9 +195,9 @@ contributes exactly 0 to the gradient (every entry of its term is 0). -/
 theorem self_term_zero (k : Kind) (P : Params ℝ) (u : List ℝ) : ∀ gd ∈ pairGrad k P u u, gd = 0 :=
   pairGrad_self k P u
 
-/-- **C04(6b)** the masks do fire at a coincidence: distance, `Σ|Δ|^q` and `‖Δ‖_p` are 0 `< eps` there. -/
+/-- **C04(6b)** the masks do fire at a coincidence: distance, `‖Δ‖_q` and `‖Δ‖_p` are 0 `< eps` there. -/
 theorem masks_fire_at_coincidence (P : Params ℝ) (g : Guards P) (u : List ℝ) :
-    Real.sqrt (sqDist u u) < P.eps ∧ pSum P.q (vsub u u) < P.eps ∧ pNorm P.p (vsub u u) < P.eps :=
+    Real.sqrt (sqDist u u) < P.eps ∧ pNorm P.q (vsub u u) < P.eps ∧ pNorm P.p (vsub u u) < P.eps :=
   masks_fire P g.eps_pos g.q_pos (lt_of_lt_of_le g.q_pos g.q_le_p) u
 
 /-- **C04(6c)** finiteness for `q ≥ 1`: the (unmasked) L2 term stays bounded as the point approaches the center,
